@@ -58,6 +58,10 @@ def instr_cases(rng, n):
     keys = c01.opcode_keys()
     ws = [w for w in range(65536) if keys[w]]
     out = []
+    # shift counts taken from a 16-bit immediate: tstb SttMod, ##imm16 with every kind of count
+    for a in range(8):
+        for e in (0, 15, 16, 31, 32, 33, 0x7FFF, 0xFFFE, 0xFFFF):
+            out.append(["interp gen %x" % rng.bits(40), "interp step %x %x" % (0x0028 | a, e)])
     for _ in range(n):
         w = rng.choice(ws)
         pk = []
@@ -152,14 +156,50 @@ def program_cases(rng, n):
         for k in range(rng.choice([4, 8, 16])):
             if base + k < 0x40000:
                 s.append("bus pw %x %x" % (base + k, rng.choice([0, 0x0088, rng.choice(ws)])))
-        s += ["bus poke sp %x" % rng.choice([0x1000, 0, 0xFFFF]), "bus run %x" % rng.choice([8, 20, 40]), "bus regdigest"]
+        s += ["bus poke sp %x" % rng.choice([0x1000, 0, 0xFFFF]), "bus run %x" % rng.choice([8, 20, 40]), "bus reg pc", "bus regdigest"]
+        out.append(s)
+    return out
+
+
+def paging_cases(rng, n):
+    """MIU paging: page mode on/off, x/y/z pages 0..3 and beyond, region sizes, then loads and stores on both sides of the
+    X/Y boundary and at the ends of the data space (pages >= 2 must end in the deliberate assertion, never in an access)."""
+    out = []
+    for _ in range(n):
+        s = ["bus new own"]
+        xs = rng.choice([0x20, 0x1E, 0x01, 0x3F, 0x00, rng.below(0x40)])
+        s.append("bus mw 114 %x" % ((rng.below(0x40) << 8) | xs))
+        s.append("bus mw 11a %x" % rng.choice([0x40, 0x40, 0x40, 0, 0xFFFF, 0x40 | rng.bits(16)]))
+        s.append("bus mw 10e %x" % rng.choice([0, 1, 0, 1, 2, 3, 0xFFFF]))
+        s.append("bus mw 110 %x" % rng.choice([0, 1, 0, 1, 2, 3, 4, 0xFF, 0xFFFF]))
+        s.append("bus mw 112 %x" % rng.choice([0, 0, 1, 2]))
+        edge = xs * 0x400
+        for _ in range(8):
+            a = rng.choice([0, 1, edge - 1, edge, edge + 1, edge + 2, 0x7FFF, 0x8800, 0x9000, 0xFFFF, rng.bits(16)]) & 0xFFFF
+            if rng.chance(1, 2):
+                s.append("bus dw %x %x %x" % (a, rng.bits(16), rng.below(2)))
+            else:
+                s.append("bus dr %x %x" % (a, rng.below(2)))
+        out.append(s)
+    return out
+
+
+def vector_cases(rng, n):
+    """Vectored interrupts with arbitrary words in the vector registers: control must stay inside the 18-bit program space."""
+    out = []
+    for _ in range(n):
+        q = rng.below(16)
+        hi = rng.choice([0, 1, 2, 3, 4, 5, 7, 0x8004, 0x7FFF, 0xFFFF, rng.bits(16)])
+        s = ["bus new own", "bus pw 0 57f0", "bus poke ie 1", "bus poke imv 1", "bus poke sp 1000",
+             "bus mw %x %x" % (0x212 + 4 * q, hi), "bus mw %x %x" % (0x214 + 4 * q, rng.choice([0x100, 0xFFFF, 0, rng.bits(16)])),
+             "bus mw 20c %x" % (1 << q), "bus mw 204 %x" % (1 << q), "bus run 4", "bus reg pc"]
         out.append(s)
     return out
 
 
 # ---------------------------------------------------------------------------------------------------- judging
 
-def classify(script, k):
+def classify(script, k, impl=None):
     """Name the call site of an `oob` answer at line k."""
     line = script[k]
     t = line.split()
@@ -177,7 +217,27 @@ def classify(script, k):
     if t[1] in ("mr", "mw") and 0x1C0 <= (int(t[2], 16) & 0x7FF) <= 0x1DE:
         return "DMA channel window access with CHANNEL >= 8 indexes channels[8] out of range (Dma::ActivateChannel stores the value unmasked)"
     if t[1] in ("run", "steps"):
-        return "program fetch outside the array: pc ran past the last program word 0x3FFFF (pc is not wrapped to 18 bits)"
+        # where was the core when the fetch left the array?  (the registers keep the state of the faulting cycle)
+        pc = None
+        if impl is not None and k + 1 < len(script) and script[k + 1] == "bus reg pc":
+            try:
+                pc = int(impl[k + 1].split()[0], 16)
+            except ValueError:
+                pc = None
+        vectored = any(l.startswith("bus mw 20c") for l in script[:k])
+        if vectored:
+            # a handler legitimately placed in the last words of program space runs off the end like any other code
+            vw = [l.split() for l in script[:k] if l.startswith("bus mw 2") and 0x212 <= int(l.split()[2], 16) <= 0x250]
+            hi = [int(t[3], 16) for t in vw if (int(t[2], 16) - 0x212) % 4 == 0]
+            lo = [int(t[3], 16) for t in vw if (int(t[2], 16) - 0x212) % 4 == 2]
+            if hi and lo and (((hi[-1] & 3) << 16) | lo[-1]) >= 0x3FF80:
+                vectored = False
+        if pc is None or (0x40000 <= pc <= 0x40082 and not vectored):
+            # reachable from the top of program space by pc++ or a 7-bit relative branch/call (`pc += offset`, unwrapped)
+            return "program fetch outside the array: pc ran past the last program word 0x3FFFF (pc is not wrapped to 18 bits)"
+        return "control was transferred to program address 0x%x, outside the 18-bit program space (fetch outside the array)" % pc
+    if t[1] in ("dr", "dw"):
+        return "data access `%s` reaches DSP memory outside the array (address conversion / paging)" % " ".join(t[1:])
     return "`%s` makes the emulator access memory outside its arrays" % " ".join(t[1:])
 
 
@@ -185,7 +245,7 @@ def inspect(script, impl):
     for k, (line, r) in enumerate(zip(script, impl)):
         head = r.split(" ")[0]
         if head == "oob":
-            return [("out-of-bounds access on the real code: %s  [input: %s]" % (classify(script, k), " ; ".join(script[max(1, k - 3):k + 1])[:200]), k)]
+            return [("out-of-bounds access on the real code: %s  [input: %s]" % (classify(script, k, impl), " ; ".join(script[max(1, k - 3):k + 1])[:200]), min(k + 1, len(script) - 1))]
         if head in vlib.ABORTS:
             return []
     return []
@@ -211,6 +271,21 @@ def judge(pair, script, impl, model):
     return False, "(model and implementation differ; no out-of-bounds access exhibited on the real code)"
 
 
+def enclosing_function(rel, line):
+    """Signature of the function that contains source line `line` (so that a finding names a site that survives edits
+    elsewhere in the file)."""
+    import re
+    try:
+        src = open(os.path.join(vlib.REPO, rel)).read().split("\n")
+    except OSError:
+        return "?"
+    for k in range(min(line, len(src)) - 1, -1, -1):
+        m = re.match(r"\s*(?:static |inline |virtual |template <[^>]*> )*[\w:<>&\*]+\s+(\w+)\(([^)]*)\)\s*(?:const)?\s*\{", src[k])
+        if m and m.group(1) not in ("if", "for", "while", "switch"):
+            return "%s(%s)" % (m.group(1), m.group(2))
+    return "?"
+
+
 def sanitizer_run(scripts, violations, ctx):
     """The same inputs under ASan + UBSan: a sanitizer abort is a violation with the script as replay."""
     try:
@@ -225,12 +300,17 @@ def sanitizer_run(scripts, violations, ctx):
         import re
         m = re.search(r"(runtime error: [^\n]+|ERROR: AddressSanitizer: [^\n]+)", err)
         what = m.group(1) if m else err[-200:]
-        loc = re.search(r"(src/[\w./]+:\d+|include/[\w./]+:\d+)", err)
-        key = (what.split(" for ")[0][:60], loc.group(1) if loc else "")
+        what = re.sub(r"exponent -?\d+", "exponent N", what)
+        what = re.sub(r"0x[0-9a-f]{6,}", "ADDR", what)
+        loc = re.search(r"((?:src|include)/[\w./]+):(\d+)", err)
+        where = "?"
+        if loc:
+            where = "%s, %s" % (enclosing_function(loc.group(1), int(loc.group(2))), loc.group(1))
+        key = (what[:80], where)
         if key in seen:
             continue
         seen.add(key)
-        violations.append(("sanitizer abort on the real code: %s at %s" % (what[:160], loc.group(1) if loc else "?"),
+        violations.append(("sanitizer abort on the real code: %s in %s" % (what[:160], where),
                            {"kind": "crash", "script": scripts[i], "stderr": err[-3000:]}, True))
         if len(seen) >= 6:
             break
@@ -239,7 +319,8 @@ def sanitizer_run(scripts, violations, ctx):
 def explore(rng, tier, replay=None):
     q = tier == "quick"
     scripts = (instr_cases(rng, 6000 if q else 200000) + dma_cases(rng, 300 if q else 6000) + window_cases(rng, 60 if q else 600) +
-               mmio_cases(rng, 150 if q else 3000) + program_cases(rng, 200 if q else 4000))
+               mmio_cases(rng, 150 if q else 3000) + program_cases(rng, 200 if q else 4000) +
+               paging_cases(rng, 300 if q else 6000) + vector_cases(rng, 150 if q else 3000))
     ctx = corr.explore(PROP, scripts, judge=judge, signature=signature, inspect=inspect, model_first=False, max_report=2000,
                        rule="the TEAKRA_VERIF observer inside SharedMemory reports every word access of the real code before it is made; "
                             "the harness answers `oob` instead of performing one outside the 0x80000 bytes, and guards the unchecked "
@@ -248,7 +329,9 @@ def explore(rng, tier, replay=None):
                             "the ends of data space, loop frames), random DMA configurations over all spaces with 32-bit addresses and "
                             "AHBM settings then a start, CHANNEL written with out-of-range values followed by window accesses, arbitrary "
                             "values to every MMIO offset through both paths with data accesses around the window, short runs of "
-                            "arbitrary program words at the top of the program space; the same scripts under ASan+UBSan")
+                            "arbitrary program words at the top of the program space; MIU paging (page mode, x/y/z pages incl. values >= 2, "
+                            "region sizes) with loads/stores around the X/Y boundary; vectored interrupts with arbitrary words in the "
+                            "vector registers; the same scripts under ASan+UBSan")
     v = ctx.get("violations", [])
     # de-duplicate by call site (one report per site)
     seen, uniq = set(), []
